@@ -160,7 +160,8 @@ func (n *minNode) Next() (bool, error) {
 						case float64:
 							res = res.SetFloat64(v)
 						default:
-							return nil
+							// a null (or non-numeric) value does not take part, the running result is kept
+							return value
 						}
 						if value == nil || res.Cmp(value) < 0 {
 							return res
